@@ -306,3 +306,12 @@ Theorem C08_bounds_are_the_regenerated_code : forall (V : Type) (fs : list (@rfi
                    last_some (fun f => gen_get_last_sample (findex f) (dlen f)) fs).
 Proof. exact @get_bounds_regen. Qed.
 Print Assumptions C08_bounds_are_the_regenerated_code.
+
+(* ---- T17: the sources this property rests on keep no state outside the objects the model has (no static locals
+   or mutable globals in C, no class-level / module-level containers, `global` rebinding or cache decorators in
+   Python): the list of such sites, regenerated from the sources on every run, is empty *)
+From Coq Require Import String List.
+From DRF Require Import Gen.StateSites Proofs.StateSitesProofs.
+Theorem C08_no_state_outside_the_modelled_objects : state_sites_rf_python = @nil string /\ state_sites_listing = @nil string.
+Proof. repeat split; first [exact no_state_outside_objects_rf_python | exact no_state_outside_objects_listing]. Qed.
+Print Assumptions C08_no_state_outside_the_modelled_objects.
